@@ -18,63 +18,11 @@ ASSUMPTIONS = ["python reference interpreter of the manual's For/Forall/Control-
                "decimal loop bounds are not generated", "gcc ASan/UBSan runtimes"]
 
 IMAX = (1 << 63) - 1; IMIN = -(1 << 63)
-GLOBALS = ["A", "B", "C", "D", "P", "Q", "S", "U", "T", "W"]
-
-PROBE = 'i = "txt"; j = 1.5; k = true; e = "it"; f = tab(1, "x"); t.concat(1); w.concat(2); t.put(0, 9); for i in 1 to 2 loop zz = i; end loop; forall e in t loop zy = e; end loop; print "@@P:" t.count() " " w.count() " " zz;'
 
 
-class Sh:
+class Sh(ld.DiffRunner):
     def __init__(self, desc):
-        self.desc = desc; self.res = new_result(); self.probe = Probe("asan", timeout=40)
-        self.E = errnos(self.probe)
-        self.rnd = random.Random("%s-c06-%s-%s" % (desc["seed"], desc["kind"], desc["k"]))
-
-    def viol(self, cls, what, ops, text):
-        add_violation(self.res, "C06|" + cls, what, {"ops": ops, "program": text})
-
-    def run_program(self, funcs, prog, label, loopy=True):
-        b = ml.bounded(funcs, prog)
-        if b is None:
-            bump(self.res, "generated_unbounded_discarded"); return
-        it, oc = b
-        text = ml.render(funcs, prog, self.rnd)
-        ops = ["new A 0", "parse A P %s" % hx(text), "run A P 20000", "dump A", "resetstop A", "parse A Q %s" % hx(PROBE), "run A Q 2000", "dump A nofn"]
-        r = self.probe.case(ops)
-        self.res["evaluations"] += 1
-        if r.timeout:
-            self.res["inconclusive"] += 1; bump(self.res, "timeouts"); return
-        if r.crashed:
-            bump(self.res, "worker_crashes")
-            add_violation(self.res, "C06|crash:%s" % r.sig, "%s program crashed: %s" % (label, r.sig), {"ops": ops, "program": text, "report": r.report[-3000:]}); return
-        rep = r.replies
-        if not rep[1].startswith("ok"):
-            self.viol("generated-program-rejected", "parser rejected a generated program: %s" % rep[1][:160], ops, text); return
-        ioc, intr, out, steps = ld.impl_outcome(rep[2], self.E)
-        if intr:
-            self.viol("non-termination", "%s program still running after 20000 statements; the reference interpreter finishes it in %d statements" % (label, it.steps), ops, text); return
-        im = ld.markers(out)
-        why = ld.compare(it, oc, ioc, im)
-        if why:
-            self.viol(why[0] + self.classify(prog, why), "%s: %s" % (label, why[1]), ops, text); return
-        bad, d = ld.residue(rep[3], allow_ret=(oc[0] == "returned"))
-        if bad:
-            self.viol("residue|" + bad[0].split()[0], "%s: after the run (%s): %s" % (label, oc[0], "; ".join(bad)), ops, text); return
-        envbad = [x for x in ld.model_env_check(it, d) if x.split(":")[0].upper() in GLOBALS]
-        if envbad:
-            self.viol("final-variables", "%s: %s" % (label, "; ".join(envbad[:3])), ops, text); return
-        # probe: former iterators accept another type, formerly iterated tables accept concat, new loops open
-        if not rep[5].startswith("ok") or not rep[6].startswith("ok"):
-            self.viol("probe-rejected", "%s: probe program refused after the run (%s): %s / %s" % (label, oc[0], rep[5][:100], rep[6][:100]), ops, text); return
-        pm = ld.markers(unhx(rfields(rep[6])[2].get("out", "-")))
-        exp_t = len(it.env.get("t") or []) + 1; exp_w = len(it.env.get("w") or []) + 1
-        if pm != ["@@P:%d %d 2" % (exp_t, exp_w)]:
-            self.viol("probe-output", "%s: probe printed %r, expected table sizes %d %d" % (label, pm, exp_t, exp_w), ops, text); return
-        if it.steps > 12 or not loopy:
-            self.res["nontrivial"].add(case_hash(text))
-        bump(self.res, "outcome_" + oc[0])
-        bump(self.res, "markers_compared", len(im))
-        if len(self.res["samples"]) < 3 and len(im) > 3:
-            self.res["samples"].append({"program": text[:600], "markers": im[:8], "outcome": list(map(str, oc)), "statements_model": it.steps, "statements_interpreter": steps})
+        ld.DiffRunner.__init__(self, "C06", desc)
 
     def classify(self, prog, why):
         return ""
